@@ -81,9 +81,8 @@ def work(job):
     if yields:
         cases = [(n, c) for n, c in cases if c.indirect()]
     dfa = cases[0][1].dfa
-    for _ in range(8 if tier == "quick" else 30):
-        data = inputs.random_walk(dfa, rng, rng.randint(1, 24))
-        if rng.random() < 0.3:
+    for wi, data in enumerate([inputs.random_walk(dfa, rng, rng.randint(1, 24)) for _ in range(8 if tier == "quick" else 30)] + inputs.extra(prog)):
+        if wi < (8 if tier == "quick" else 30) and rng.random() < 0.3:
             data = bytes(b | 0x80 if rng.random() < 0.3 else b for b in data)
         n = len(data)
         cut = rng.randint(0, n)
